@@ -669,13 +669,14 @@ func Delete(ctx context.Context, scope *ReferenceScope, query parser.DeleteQuery
 		}
 	}
 
+	// No table is stored after a cancellation: the statement changes all of its tables or none.
+	if ctx.Err() != nil {
+		return nil, nil, ConvertContextError(ctx.Err())
+	}
+
 	fileInfos := make([]*FileInfo, 0)
 	deletedCounts := make([]int, 0)
 	for k, v := range viewsToDelete {
-		if ctx.Err() != nil {
-			return nil, nil, ConvertContextError(ctx.Err())
-		}
-
 		records := make(RecordSet, 0, v.RecordLen()-len(deletedIndices[k]))
 		for i, record := range v.RecordSet {
 			if !deletedIndices[k][i] {
